@@ -141,6 +141,11 @@ def run(ctx):
              ({"ir": "10000", "or": "1", "recipe": 0}, {}), ({"ir": "96000", "or": "44101", "recipe": 5}, {"SOXR_USE_SIMD": "0"})]
     for i in range(nplans):
         cfgs.append(fixed[i] if i < len(fixed) else cr.gen_config(rng, allow_nonlinear=False))
+    # very large up-sampling factors (the post stage's factor is capped at 256 and the rest goes to the stages in front of it), below the
+    # region of known finding F23
+    for f in (2048, 4096, 5000, 3000.5, 20000, 100000):
+        for recipe in (4, 1):
+            cfgs.append(({"ir": "1", "or": repr(float(f)), "recipe": recipe}, {}))
     # ratios a fraction of one clock unit (2^-32) away from the values at which the planner rounds, snaps or switches path, with the
     # cubic stage (no planner in front of it) and with a full plan, in both directions
     for t in (1.5, 2.0, 3.0, 4.0, 5.0, 6.0, 8.0, 12.0):
@@ -229,7 +234,8 @@ def run(ctx):
     for cfg, env, tr, p in problems:
         rep = {"cfg": cfg, "env": env, "plan": tr.plan, "problem": p, "replay": "harness/cr/trace.c: " + cr.create_line(cfg)}
         found = None
-        if numeric is not None and hasattr(numeric, "confirm"):
+        io = cr.io_ratio(cfg)
+        if numeric is not None and hasattr(numeric, "confirm") and 1 / 300.0 <= io <= 400:      # (the measurements synthesise whole streams in memory)
             try:
                 found = numeric.confirm(cfg, env)
                 if not found and ("SOXR_HI_PREC_CLOCK" in p or "rational ratio not realised" in p) and nlong < 3:      # a drift shows on a long stream, not on the ramp
